@@ -21,6 +21,7 @@ import (
 	"strconv"
 	"strings"
 
+	"github.com/consensys/gnark-crypto/accumulator/merkletree"
 	fiatshamir "github.com/consensys/gnark-crypto/fiat-shamir"
 )
 
@@ -344,6 +345,130 @@ func friPositions(pos, card, nbSteps int) []int {
 	return res
 }
 
+// CONSISTENT FORGERY under a prover-supplied structural parameter: port of buildProofOfProximitySingleRound (big.Int
+// arithmetic, the library's Merkle tree and transcript) in which the NUMBER OF LEAVES of the oracle of every step is a
+// parameter: the sorted evaluations of step i are followed by pad[i] > 0 arbitrary extra leaves (or cut by −pad[i]), the
+// tree, its root, the folding challenges derived from the roots, the folded polynomials, the final evaluation, the query
+// positions and the Merkle paths are all derived honestly for those trees. numLeaves of both entries of a step is the size
+// of the tree actually built. With pad = 0 everywhere the result is the library's proof (checked by the generator).
+// ok = false: a queried leaf was cut off.
+func friConsist(api *friAPI, size uint64, p []*big.Int, pad []int, seed *big.Int) (friPoP, bool) {
+	r := api.modulus
+	card := int(8 * nextPow2(size))
+	nbSteps := 0
+	for n := nextPow2(size); n > 1; n >>= 1 {
+		nbSteps++
+	}
+	if nbSteps == 0 || len(pad) != nbSteps {
+		return friPoP{}, false
+	}
+	ginv := api.ginv(size)
+	gen := new(big.Int).ModInverse(ginv, r)
+	mul := func(a, b *big.Int) *big.Int { t := new(big.Int).Mul(a, b); return t.Mod(t, r) }
+	cur := make([]*big.Int, card)
+	x := big.NewInt(1)
+	for j := 0; j < card; j++ {
+		acc := new(big.Int)
+		for k := len(p) - 1; k >= 0; k-- {
+			acc = mul(acc, x)
+			acc.Add(acc, p[k]).Mod(acc, r)
+		}
+		cur[j] = acc
+		x = mul(x, gen)
+	}
+	names := make([]string, nbSteps+1)
+	for i := 0; i < nbSteps; i++ {
+		names[i] = fmt.Sprintf("x%d", i)
+	}
+	names[nbSteps] = "s0"
+	fs := fiatshamir.NewTranscript(sha256.New(), names...)
+	if fs.Bind(names[0], friMarshal(api, new(big.Int))) != nil {
+		return friPoP{}, false
+	}
+	twoInv := new(big.Int).Add(r, big.NewInt(1))
+	twoInv.Rsh(twoInv, 1)
+	leaves := make([][][]byte, nbSteps)
+	sorted := make([][]*big.Int, nbSteps)
+	gi := new(big.Int).Set(ginv)
+	for i := 0; i < nbSteps; i++ {
+		n := len(cur) / 2
+		q := make([]*big.Int, len(cur))
+		for k := 0; k < n; k++ {
+			q[2*k], q[2*k+1] = cur[k], cur[k+n]
+		}
+		sorted[i] = q
+		for k := range q {
+			leaves[i] = append(leaves[i], friMarshal(api, q[k]))
+		}
+		for k := 0; k < pad[i]; k++ {
+			e := new(big.Int).Add(seed, big.NewInt(int64(1000*i+k)))
+			leaves[i] = append(leaves[i], friMarshal(api, e.Mod(e, r)))
+		}
+		if pad[i] < 0 {
+			if -pad[i] >= len(leaves[i])-1 {
+				return friPoP{}, false
+			}
+			leaves[i] = leaves[i][:len(leaves[i])+pad[i]]
+		}
+		t := merkletree.New(sha256.New())
+		for _, l := range leaves[i] {
+			t.Push(l)
+		}
+		if fs.Bind(names[i], t.Root()) != nil {
+			return friPoP{}, false
+		}
+		b, err := fs.ComputeChallenge(names[i])
+		if err != nil {
+			return friPoP{}, false
+		}
+		xi := new(big.Int).SetBytes(b)
+		xi.Mod(xi, r)
+		next := make([]*big.Int, n)
+		acc := big.NewInt(1)
+		for k := 0; k < n; k++ {
+			p1 := new(big.Int).Add(q[2*k], q[2*k+1])
+			p2 := new(big.Int).Sub(q[2*k], q[2*k+1])
+			p2.Mod(p2, r)
+			v := mul(mul(p2, acc), xi)
+			v.Add(v, p1)
+			next[k] = mul(v, twoInv)
+			acc = mul(acc, gi)
+		}
+		cur = next
+		gi = mul(gi, gi)
+	}
+	var res friPoP
+	res.eval = cur[0]
+	if fs.Bind(names[nbSteps], friMarshal(api, res.eval)) != nil {
+		return friPoP{}, false
+	}
+	b, err := fs.ComputeChallenge(names[nbSteps])
+	if err != nil {
+		return friPoP{}, false
+	}
+	bp := new(big.Int).SetBytes(b)
+	bp.Mod(bp, big.NewInt(int64(card)))
+	si := friPositions(int(bp.Uint64()), card, nbSteps)
+	res.steps = make([][2]friMP, nbSteps)
+	for i := 0; i < nbSteps; i++ {
+		if si[i]|1 >= len(leaves[i]) {
+			return friPoP{}, false
+		}
+		t := merkletree.New(sha256.New())
+		if t.SetIndex(uint64(si[i])) != nil {
+			return friPoP{}, false
+		}
+		for _, l := range leaves[i] {
+			t.Push(l)
+		}
+		mr, ps, _, nl := t.Prove()
+		c := si[i] % 2
+		res.steps[i][c] = friMP{root: mr, ps: ps, nl: nl}
+		res.steps[i][1-c] = friMP{root: cloneBytes(mr), ps: [][]byte{friMarshal(api, sorted[i][si[i]+1-2*c]), shaSum(ps[0])}, nl: nl}
+	}
+	return res, true
+}
+
 // ---------------------------------------------------------------- generation
 
 func genFri(g *gen) {
@@ -397,6 +522,43 @@ func (g *gen) friCases(curve string, api *friAPI, size uint64, rep int) {
 	}
 	emit := func(kind string, pp friPoP) { g.emit("%s", friLine(kind, curve, size, api, pp)) }
 	emit("honest", h)
+	// CONSISTENT FORGERIES under the prover-supplied NUMBER OF LEAVES of each oracle (friConsist): the whole proof re-derived
+	// for trees that are larger (one extra leaf, twice as many) or smaller (last leaf cut, half) than the verifier's domain,
+	// at every single step and at all steps at once. The specification demands numLeaves = |domain| / 2^i at step i.
+	{
+		zero := make([]int, nbSteps)
+		if c0, ok := friConsist(api, size, p, zero, big.NewInt(1)); !ok || friLine("honest", curve, size, api, c0) != friLine("honest", curve, size, api, h) {
+			panic("friConsist: the port differs from BuildProofOfProximity")
+		}
+		seed := g.rng.bigBelow(api.modulus)
+		try := func(kind string, pad []int) {
+			if c, ok := friConsist(api, size, p, pad, seed); ok {
+				emit("consist_nl_"+kind, c)
+			}
+		}
+		try("honest", zero)
+		all := func(f func(n int) int) []int {
+			pd := make([]int, nbSteps)
+			for i := range pd {
+				pd[i] = f(int(card) >> uint(i))
+			}
+			return pd
+		}
+		try("all_double", all(func(n int) int { return n }))
+		try("all_plus1", all(func(n int) int { return 1 }))
+		try("all_minus1", all(func(n int) int { return -1 }))
+		for i := 0; i < nbSteps; i++ {
+			n := int(card) >> uint(i)
+			for _, v := range []struct {
+				k string
+				d int
+			}{{"double", n}, {"plus1", 1}, {"plus3", 3}, {"minus1", -1}, {"half", -n / 2}} {
+				pd := make([]int, nbSteps)
+				pd[i] = v.d
+				try(fmt.Sprintf("s%d_%s", i, v.k), pd)
+			}
+		}
+	}
 	one := big.NewInt(1)
 	addOne := func(b []byte) []byte {
 		v := new(big.Int).SetBytes(b)
@@ -578,7 +740,9 @@ func (g *gen) friCases(curve string, api *friAPI, size uint64, rep int) {
 		if err != nil {
 			continue
 		}
-		oe := func(kind string, ps uint64, op friOpening, pp friPoP) { g.emit("%s", friOpenLine(kind, curve, size, ps, op, pp)) }
+		oe := func(kind string, ps uint64, op friOpening, pp friPoP) {
+			g.emit("%s", friOpenLine(kind, curve, size, ps, op, pp))
+		}
 		oe("honest", pos, o, h)
 		e := o.clone()
 		e.claimed.Add(e.claimed, one).Mod(e.claimed, api.modulus)
